@@ -71,7 +71,7 @@ def items_sx(packet) -> list:
 
 def show_pkt(packet) -> str:
     its = [item(k, v) for k, v in packet.items()]
-    return f"{packet.raw_data.pos} {len(its)}" + ("" if not its else " " + " ".join(its))
+    return f"{packet.raw_data.pos} {hx(bytes(packet.raw_data))} {len(its)}" + ("" if not its else " " + " ".join(its))
 
 
 # ---------------------------------------------------------------------------------------------------
